@@ -1,7 +1,106 @@
-(** C17 — property theorems (statements only; proofs are in C17/Proofs.v). *)
+(** C17 — property theorems (statements only; proofs are in C17/Proofs.v and
+    Common/TrieProofs.v).
+
+    Vocabulary.  [crun h] is the model resolver after the history [h] of
+    [CAdd] / [CDel] / [CRep] operations (an operation carries the *parsed*
+    certificate; [None] = it does not parse).  [Forall plain_cop h]: every
+    certificate name of the history is non-empty, has no '/' and no leading
+    '.' (exact and wild-card names; other names cannot be stored and are
+    skipped by the code — covered by the correspondence run only).
+    [good_key sni], [label_of sni <> "*"]: the server name is a host name. *)
 From Coq Require Import List Arith NArith ZArith Lia.
-From SV Require Import Common.Trie C17.Model C17.Proofs.
+From SV Require Import Common.Trie Common.TrieProofs C17.Model C17.Proofs.
 Import ListNotations.
 
-Theorem sorted_insert_grows_by_one : forall x l, length (ins_sorted x l) = S (length l).
-Proof. exact ins_sorted_length. Qed.
+(** three_structures_agree (invariant, every history): the name trie maps each
+    name to the last entry of that name's index list; the index list of a name
+    holds exactly the stored certificates carrying the name, sorted by
+    expiration; store keys are the certificates' fingerprints.  No dangling
+    fingerprint can therefore be served. *)
+Theorem three_structures_agree_always :
+  forall re_ok re_match h, Forall plain_cop h -> good_state re_match (crun re_ok h).
+Proof. exact good_run. Qed.
+
+(** resolve_refines_best: for every history and every server name, what
+    [domain_lookup(sni, true)] returns is a *loaded* certificate carrying the
+    exact name — or, only when no loaded certificate carries the exact name,
+    the wild-card name that replaces its left-most label — with the greatest
+    expiration among the loaded certificates carrying that name; it returns
+    nothing (default certificate) only when no loaded certificate carries
+    either name.  A removed certificate is not in the store, hence never
+    served. *)
+Theorem resolve_refines_best :
+  forall re_ok re_match h sni,
+    Forall plain_cop h -> good_key sni -> label_of sni <> [STAR] ->
+    is_best_cert (store (crun re_ok h)) sni (option_map snd (resolve re_match (crun re_ok h) sni)).
+Proof. exact resolve_refines_best_lemma. Qed.
+
+(** a removed fingerprint is not in the store (whatever the history before) *)
+Theorem removed_certificate_not_stored :
+  forall re_ok h fp,
+    Forall plain_cop h -> aget fp (store (remove_cert re_ok (crun re_ok h) fp)) = None.
+Proof.
+  intros re_ok h fp P. unfold remove_cert.
+  destruct (aget fp (store (crun re_ok h))) eqn:E; [|exact E].
+  cbn [store]. apply aget_adel_same.
+Qed.
+
+(** replace_no_gap: in the state between the add and the remove of
+    [replace_certificate] the three structures agree and every server name
+    that resolved before still resolves; a replace whose new certificate does
+    not parse, and an idempotent replace, leave the resolver untouched. *)
+Theorem replace_no_gap :
+  forall re_ok re_match r c sni,
+    good_state re_match r -> Forall good_key (c_names c) -> good_key sni -> label_of sni <> [STAR] ->
+    good_state re_match (replace_mid re_ok r c) /\
+    (resolve re_match r sni <> None -> resolve re_match (replace_mid re_ok r c) sni <> None).
+Proof. exact replace_no_gap_lemma. Qed.
+
+Theorem replace_failing_or_idempotent_is_identity :
+  forall re_ok r c old,
+    replace_cert re_ok r None old = (r, false) /\ replace_cert re_ok r (Some c) (Some (c_fp c)) = (r, true).
+Proof. intros. split; [apply replace_failing_unchanged|apply replace_idempotent_unchanged]. Qed.
+
+(** the candidate lists: [sort_by_key] + [last()] picks a maximal expiration *)
+Theorem stable_sort_is_sorted_permutation :
+  forall l, sorted (stable_sort l) /\ forall y, In y (stable_sort l) <-> In y l.
+Proof. intros l. split; [apply stable_sort_sorted|intros y; apply stable_sort_In]. Qed.
+
+(** strict SNI: the predicate evaluated before routing accepts an authority
+    exactly when some name of the served certificate covers its host part
+    (port stripped, one trailing dot stripped) — equal up to ASCII case for a
+    name without '*', or one non-empty dot-free label in place of a leading
+    "*." with no other '*'.  An authority that is not covered gets [None]
+    (the call site answers 421). *)
+Theorem authority_covered :
+  forall authority names,
+    match authority_matched authority names with
+    | Some e => In e names /\ covers_spec (host_of_authority authority) e
+    | None => host_of_authority authority = [] \/
+              forall e, In e names -> ~ covers_spec (host_of_authority authority) e
+    end.
+Proof. exact authority_matched_spec. Qed.
+
+(** ** non-vacuity *)
+Definition n_a_com : bytes := [97; 46; 99; 111; 109]%N.
+Definition n_star_a_com : bytes := [42; 46; 97; 46; 99; 111; 109]%N.
+Definition n_x_a_com : bytes := [120; 46; 97; 46; 99; 111; 109]%N.
+
+Example history_nonvacuous :
+  let c1 := mkcert [1%N] [n_a_com] 100 in
+  let c2 := mkcert [2%N] [n_a_com; n_star_a_com] 200 in
+  let h := [CAdd (Some c1); CAdd (Some c2); CRep (Some c1) (Some [1%N]); CDel [2%N]] in
+  Forall plain_cop h /\
+  option_map snd (resolve (fun _ _ => false) (crun (fun _ => false) [CAdd (Some c1); CAdd (Some c2)]) n_a_com) = Some [2%N] /\
+  option_map snd (resolve (fun _ _ => false) (crun (fun _ => false) [CAdd (Some c1); CAdd (Some c2)]) n_x_a_com) = Some [2%N] /\
+  option_map snd (resolve (fun _ _ => false) (crun (fun _ => false) h) n_a_com) = Some [1%N] /\
+  resolve (fun _ _ => false) (crun (fun _ => false) h) n_x_a_com = None.
+Proof.
+  cbv zeta. split; [repeat constructor; cbn; discriminate|]. repeat split; vm_compute; reflexivity.
+Qed.
+
+Example authority_nonvacuous :
+  authority_matched ([88; 46; 65; 46; 99; 111; 109; 46; 58; 52; 52; 51]%N)          (* "X.A.com.:443" *)
+                    [n_a_com; n_star_a_com] = Some n_star_a_com /\
+  authority_matched n_a_com [n_star_a_com] = None.
+Proof. split; vm_compute; reflexivity. Qed.
